@@ -50,6 +50,16 @@ fn slice_res(r: Result<Vec<u8>, String>) -> Value {
 }
 
 /// run one op on one representation
+/// a..=b iterated to its end: the value carries the hidden "exhausted" state, and as an index it denotes the EMPTY
+/// slice at b+1 (Hex.tla RangeInclSpent).  Only for short ranges (it is iterated).
+fn spent(a: usize, b: usize) -> std::ops::RangeInclusive<usize> {
+    let mut r = a..=b;
+    if b < 100_000 {
+        for _ in r.by_ref() {}
+    }
+    r
+}
+
 fn run_op(op: &str, h: &Hex, a: usize, b: usize, b_raw: i64, other: &[u8]) -> Value {
     match op {
         "len" => {
@@ -123,6 +133,7 @@ fn run_op(op: &str, h: &Hex, a: usize, b: usize, b_raw: i64, other: &[u8]) -> Va
         "to_incl" => slice_res(guarded(|| h[..=a].to_vec())),
         "range" => slice_res(guarded(|| h[a..b].to_vec())),
         "incl" => slice_res(guarded(|| h[a..=b].to_vec())),
+        "incl_spent" => slice_res(guarded(|| h[spent(a, b)].to_vec())),
         "set" => {
             let mut h2 = h.clone();
             match guarded(|| {
@@ -162,6 +173,7 @@ fn std_op(op: &str, s: &[u8], a: usize, b: usize) -> Option<Value> {
         "to_incl" => slice_res(guarded(|| s[..=a].to_vec())),
         "range" => slice_res(guarded(|| s[a..b].to_vec())),
         "incl" => slice_res(guarded(|| s[a..=b].to_vec())),
+        "incl_spent" => slice_res(guarded(|| s[spent(a, b)].to_vec())),
         "full" => bytes_json(s),
         _ => return None,
     })
